@@ -33,7 +33,8 @@ def _corrupt(evs):
 
 
 def plans(tier):
-    return progcheck.standard_plans(tier) + ([("d1-win-q", 128, 1)] if tier == "quick" else [("d1-win", 128, 1)])
+    return progcheck.standard_plans(tier) + ([("d1-win-q", 128, 1)] if tier == "quick" else [("d1-win", 128, 1)]) \
+        + [("d3-balance-declared", 4, 1), ("d2-blockfirst", 4, 1)]
 
 
 def run(chk):
